@@ -13,6 +13,7 @@ type State struct {
 	pc    []*Term
 	h     map[string]*Term // every versioned piece of global state: heap fields, memories, maps, alloc counter, ghost
 	sorts map[string]*Sort // shared, append-only
+	track map[string]*Sort // when non-nil: records the state components read (for heap-dependent spec functions)
 }
 
 func newState() *State {
@@ -20,7 +21,7 @@ func newState() *State {
 }
 
 func (st *State) clone() *State {
-	n := &State{pc: append([]*Term{}, st.pc...), h: make(map[string]*Term, len(st.h)), sorts: st.sorts}
+	n := &State{pc: append([]*Term{}, st.pc...), h: make(map[string]*Term, len(st.h)), sorts: st.sorts, track: st.track}
 	for k, v := range st.h {
 		n.h[k] = v
 	}
@@ -53,6 +54,9 @@ func (st *State) infeasible() bool {
 
 // get returns the current term of a state component, the entry symbol if never written.
 func (st *State) get(key string, s *Sort) *Term {
+	if st.track != nil {
+		st.track[key] = s
+	}
 	if t, ok := st.h[key]; ok {
 		return t
 	}
